@@ -1,7 +1,7 @@
 """C17: regenerate the COMBINATION sites of the classifiers as Gallina (C17/Sites.v).
 
-A fail-closed `ast` extractor over the functions in which the classifiers turn their fitted
-members' outputs into probabilities and labels:
+A fail-closed extractor BY SYMBOLIC EXECUTION (translator/symexec_c19.py) over the functions in
+which the classifiers turn their fitted members' outputs into probabilities and labels:
 
   classification/interval_based/_tsf.py    TimeSeriesForestClassifier.predict_proba / predict, _predict_proba
   classification/interval_based/_rise.py   RandomIntervalSpectralForest.predict_proba / predict
@@ -9,25 +9,31 @@ members' outputs into probabilities and labels:
                                            _predict_proba_for_estimator (placement of a tree's columns)
   regression/interval_based/_tsf.py        TimeSeriesForestRegressor.predict, _predict
   classification/compose/_column_ensemble.py  predict_proba, _collect_probas, predict
-  classification/dictionary_based/_boss.py    BOSSEnsemble.predict_proba (+ the facts of fit it relies on),
-                                              IndividualBOSS.predict_proba
-  classification/dictionary_based/_cboss.py   ContractableBOSS.predict_proba (+ facts of fit)
+  classification/dictionary_based/_boss.py    BOSSEnsemble.predict_proba, IndividualBOSS.predict_proba
+  classification/dictionary_based/_cboss.py   ContractableBOSS.predict_proba (+ the member weight in fit)
   classification/base.py                      BaseClassifier.predict / score
-  series_as_features/base/estimators/interval_based/_tsf.py   _transform (feature order and slice),
-                                              _get_intervals (integer arithmetic)
+  series_as_features/base/estimators/interval_based/_tsf.py   _transform, _get_intervals
 
-Every statement of these functions must be one of the shapes listed per function (compared through
-`ast.unparse`: formatting-insensitive, token-exact) - anything else raises Unsupported, a broken tie.
-The value-carrying expressions (the division after the sum, what is summed, which estimator is paired
-with which intervals, which label a column index decodes to, the placement of a bootstrap tree's
-columns, the vote increment and the normaliser, the feature order, the interval arithmetic) are
-TRANSLATED into Gallina definitions; coq/C17/BridgeSites.v proves them equal to the model for all
-arguments, so an edit of one of them breaks a proof obligation and not only sampled runs.
+The functions are executed on symbolic values (input X, self): validation that only raises
+(check_is_fitted, check_X, squeeze, the series-length test) is followed on its non-raising path
+wherever it sits - inline or in a helper of the class or of a base class in another file; local
+names are an environment; `delayed(f)(args)` is f(args); helpers are inlined.  The VALUE a function
+returns (the division after the sum, what is summed, which tree is paired with which intervals,
+which label a column index decodes to, where a bootstrap tree's columns go, the vote increment and
+the normaliser, the feature order, the interval arithmetic) is translated into Gallina definitions;
+coq/C17/BridgeSites.v proves them equal to the model for all arguments, so an edit of one of them
+breaks a proof obligation and not only sampled runs.  Pinned by statement text only: the facts of
+the (long, loop-heavy) `fit` methods that the vote counters rely on (classes_, class_dictionary,
+n_estimators, weight_sum, the member weight) - collected from ALL assignments to those attributes.
 """
 import ast
 import os
+from fractions import Fraction
 
-from .pyz import Unsupported
+from . import symexec_c19
+from .pyz import Unsupported  # noqa: F401
+from .symexec_c19 import (C, Ctx, Exec, NONE, SLICE_ALL, _fail, _params, _u, collapse, fn_of, is_neutral,  # noqa: F401
+                          kwget, leaves, show, straight)
 
 P_TSF = "sktime/classification/interval_based/_tsf.py"
 P_RISE = "sktime/classification/interval_based/_rise.py"
@@ -39,253 +45,359 @@ P_CBOSS = "sktime/classification/dictionary_based/_cboss.py"
 P_BASE = "sktime/classification/base.py"
 P_FBASE = "sktime/series_as_features/base/estimators/interval_based/_tsf.py"
 
-
-def _u(n):
-    return ast.unparse(n)
-
-
-def _fail(msg, node=None):
-    raise Unsupported("combine_c17: %s%s" % (msg, "" if node is None else " [line %s: %s]" % (
-        getattr(node, "lineno", "?"), _u(node)[:140])))
+X = ("param", "X")
+SELF = ("self",)
 
 
-def _find(mod, path):
-    node = mod
-    for p in path.split("."):
-        hits = [n for n in node.body if isinstance(n, (ast.FunctionDef, ast.ClassDef)) and n.name == p]
-        if len(hits) != 1:
-            _fail("expected exactly one definition of %s, found %d" % (path, len(hits)))
-        node = hits[0]
-    return node
+def sattr(name):
+    return ("attr", SELF, name)
 
 
-def _body(fn):
-    b = list(fn.body)
-    if b and isinstance(b[0], ast.Expr) and isinstance(b[0].value, ast.Constant) \
-            and isinstance(b[0].value.value, str):
-        b = b[1:]
-    return b
+# ------------------------------------------------------------------------------------------------
+# symbolic reading of validation / numpy plumbing
+
+def _hook(t):
+    if t[0] == "call":
+        n = fn_of(t)
+        if t[1][0] == "call" and t[1][1] == ("global", "delayed") and len(t[1][2]) == 1 and not t[1][3]:
+            return _hook(("call", t[1][2][0], t[2], t[3]))      # delayed(f)(args) is f(args), run later
+        if n == "check_X" and t[2] and t[2][0] == X:
+            return X                                   # the validated panel: the same data
+        if t[1] == ("attr", X, "squeeze") and list(t[2]) == [C(1)] and not t[3]:
+            return X                                   # (n, 1, m) -> (n, m): the same series
+        if n == "np.asarray" and len(t[2]) == 1 and not t[3]:
+            return t[2][0]
+        if n == "int" and len(t[2]) == 1 and not t[3]:
+            return t[2][0]
+    return t
 
 
-def _params(fn):
-    a = fn.args
-    if a.vararg or a.kwarg or a.kwonlyargs or a.posonlyargs:
-        _fail("parameter list of %s" % fn.name, fn)
-    return [x.arg for x in a.args]
+VALIDATION_NEUTRAL = {"self.check_is_fitted", "check_X", "X.squeeze", "_partition_estimators", "Parallel",
+                      "signal.periodogram", "np.diff", "range", "np.ones", "np.zeros", "np.sum", "np.mean",
+                      "np.average", "np.argmax", "enumerate", "delayed", "np.empty", "np.std", "_slope",
+                      "np.searchsorted", "np.concatenate", "zip", "len", "max", "min"}
 
 
-def _assign1(s):
-    if isinstance(s, ast.Assign) and len(s.targets) == 1 and isinstance(s.targets[0], ast.Name):
-        return s.targets[0].id, s.value
-    return None
+def main_path(node, what, neutral=()):
+    """follow the execution past validation: at a fork one of whose sides only raises, take the
+    other; -> (effects that are not neutral, terminal)"""
+    effs = []
+    while True:
+        while node[0] == "eff":
+            if not (is_neutral(node[1], VALIDATION_NEUTRAL) or is_neutral(node[1], neutral)):
+                effs.append(node[1])
+            node = node[2]
+        if node[0] != "if":
+            return effs, node
+        a, b = _only_raises(node[2]), _only_raises(node[3])
+        if a and not b:
+            node = node[3]
+        elif b and not a:
+            node = node[2]
+        else:
+            _fail("%s: unexpected branching on %s" % (what, show(node[1])))
 
 
-def _canon(text):
-    """canonical text of a statement / of a list of statements (parse + unparse)"""
-    if isinstance(text, list):
-        return [_canon(t) for t in text]
-    return ast.unparse(ast.parse(text))
+def _only_raises(node):
+    while node[0] == "eff" and is_neutral(node[1], VALIDATION_NEUTRAL):
+        node = node[2]
+    return node[0] == "raise"
 
 
-def _strip(stmts, allowed, what):
-    """drop the statements whose text is in `allowed` (validation that does not carry values);
-    statements are matched as whole texts, `if` statements by their test plus a single raise"""
+def _run(ctx, name, params, what):
+    fn = ctx.method(name) if ctx.methods else ctx.functions[name]
+    names, _ = _params(fn, bool(ctx.methods) and name not in ctx.static)
+    if names != params:
+        _fail("%s signature %s" % (what, names), fn)
+    env = {"self": SELF}
+    env.update({n: ("param", n) for n in names})
+    return Exec(ctx).run_function(fn, env)
+
+
+def _ret(ctx, name, params, what, neutral=()):
+    effs, term = main_path(_run(ctx, name, params, what), what, neutral)
+    if term[0] != "ret":
+        _fail("%s: must return a value" % what)
+    used = set(_subterms(term[1]))
+    effs = [e for e in effs if e not in used]          # calls whose results make up the value are not effects
+    if effs:
+        _fail("%s: unexpected operations %s" % (what, [show(e)[:80] for e in effs]))
+    return term[1]
+
+
+# ------------------------------------------------------------------------------------------------
+# numeric combination values.  'M' = the members' rows for one instance, 'R' = one row, 'S' = scalar
+
+def _members(t, what):
+    """Parallel(...)(member(i) for i in range(self.n_estimators)) -> (member term, variable)"""
+    if not (t[0] == "call" and t[1][0] == "call" and fn_of(t[1]) == "Parallel" and len(t[2]) == 1 and not t[3]
+            and t[2][0][0] == "comp"):
+        _fail("%s: the members must be computed by Parallel(...)(<one call per member>)" % what, t)
+    _, elt, var, it = t[2][0]
+    if it != ("call", ("global", "range"), (sattr("n_estimators"),), ()):
+        _fail("%s: one member per i in range(self.n_estimators) expected" % what, it)
+    return elt, var
+
+
+def _comb(t, rows_term, what, k="k"):
+    """-> (coq text, type) of a combination of the members' rows `rows_term`"""
+    if t == rows_term:
+        return "rows", "M"
+    if t == sattr("n_estimators"):
+        return "qlen rows", "S"
+    if t[0] == "call":
+        n = fn_of(t)
+        kws = dict(t[3])
+        if n in ("np.sum", "np.mean", "np.average") and len(t[2]) == 1 and kws == {"axis": C(0)}:
+            a, ta = _comb(t[2][0], rows_term, what, k)
+            if ta == "M":
+                return ("(vsum %s %s)" if n == "np.sum" else "(mean_rows %s %s)") % (k, a), "R"
+        if n == "np.ones" and list(t[2]) == [sattr("n_classes")] and not t[3]:
+            return "1", "S"                 # a vector of ones broadcast against a row: the scalar 1
+    if t[0] == "binop" and t[1] in ("Mult", "Div"):
+        a, ta = _comb(t[2], rows_term, what, k)
+        b, tb = _comb(t[3], rows_term, what, k)
+        if ta == "S" and tb == "S":
+            return "(%s %s %s)" % (a, "*" if t[1] == "Mult" else "/", b), "S"
+        if ta == "R" and tb == "S" and t[1] == "Div":
+            return "(map (fun s => s / %s) %s)" % (b, a), "R"
+    _fail("%s: combination expression" % what, t)
+
+
+def _forest(ctx, cls, what, member_of):
+    """<cls>.predict_proba / predict -> combination text; member_of(variable) = the expected member term"""
+    v = _ret(ctx, "predict_proba" if cls != "reg" else "predict", ["X"], what)
+    rows = [x for x in _subterms(v) if x[0] == "call" and x[1][0] == "call" and fn_of(x[1]) == "Parallel"]
+    if len(set(rows)) != 1:
+        _fail("%s: exactly one Parallel(...)(...) of members expected" % what, v)
+    elt, var = _members(rows[0], what)
+    want = member_of(var)
+    if elt != want:
+        _fail("%s: member i is %s, expected %s" % (what, show(elt), show(want)))
+    return _comb(v, rows[0], what)
+
+
+def unproj(t):
+    """a component taken by tuple unpacking is the component taken by indexing"""
+    if not isinstance(t, tuple):
+        return t
+    if t and t[0] == "proj":
+        return ("sub", unproj(t[1]), C(t[2]))
+    return tuple(unproj(x) for x in t)
+
+
+def _subterms(t):
+    if isinstance(t, tuple):
+        if t and isinstance(t[0], str):
+            yield t
+        for x in t:
+            if isinstance(x, tuple):
+                for y in _subterms(x):
+                    yield y
+
+
+def _decode(ctx, what):
+    """predict of a forest: the label of the first maximal column of every row of predict_proba"""
+    v = _ret(ctx, "predict", ["X"], what, neutral={"self.predict_proba"})
+    proba = ("call", sattr("predict_proba"), (X,), ())
+    if v[0] == "comp":
+        comp = v
+    elif v[0] == "call" and fn_of(v) in ("np.array",) and len(v[2]) == 1 and not v[3] and v[2][0][0] == "comp":
+        comp = v[2][0]
+    else:
+        comp = v
+    if comp[0] == "comp" and comp[3] == proba and comp[1] == ("sub", sattr("classes_"),
+                                                              ("call", ("attr", ("global", "np"), "argmax"), (comp[2],), ())):
+        return "nth_error classes (argmax_first row)"
+    if v == ("sub", sattr("classes_"), ("call", ("attr", ("global", "np"), "argmax"), (proba,), (("axis", C(1)),))):
+        return "nth_error classes (argmax_first row)"
+    _fail("%s.predict is not classes_[argmax(row)] of every row of predict_proba" % what, v)
+
+
+# ------------------------------------------------------------------------------------------------
+
+def _stsf_place(ctx):
+    node = collapse(_run(ctx, "_predict_proba_for_estimator", ["X", "X_p", "X_d", "intervals", "estimator"],
+                         "_predict_proba_for_estimator"))
+    est = ("param", "estimator")
+    paths = []
+    for effs, conds, term in leaves(node):
+        effs = [e for e in effs if not is_neutral(e, VALIDATION_NEUTRAL | {"self._transform", "estimator.predict_proba"})]
+        paths.append((effs, conds, term))
+    raw = None
+    for effs, conds, term in paths:
+        if term[0] != "ret":
+            _fail("_predict_proba_for_estimator: must return on every path")
+    # the tree's own row: estimator.predict_proba(<features>)
+    cands = {t for p in paths for t in _subterms(p[2][1]) if t[0] == "call" and t[1] == ("attr", est, "predict_proba")}
+    cands |= {t for p in paths for e in p[0] for t in _subterms(e) if t[0] == "call" and t[1] == ("attr", est, "predict_proba")}
+    if len(cands) != 1:
+        _fail("_predict_proba_for_estimator: exactly one estimator.predict_proba(...) expected")
+    raw = cands.pop()
+    if len(paths) == 1:
+        if paths[0][0] or paths[0][2][1] != raw:
+            _fail("_predict_proba_for_estimator: neither the tree's row as it is nor a placement", paths[0][2][1])
+        return "row"                      # no placement (F-C17-1)
+    ncls = sattr("n_classes")
+    width = ("sub", ("attr", raw, "shape"), C(1))
+    short_cond = {("cmp", "ne", width, ncls): True, ("cmp", "eq", width, ncls): False,
+                  ("cmp", "lt", width, ncls): True, ("cmp", "ge", width, ncls): False}
+    if len(paths) != 2:
+        _fail("_predict_proba_for_estimator: one test of the tree's number of columns expected")
+    seen = set()
+    for effs, conds, term in paths:
+        if len(conds) != 1 or conds[0][0] not in short_cond:
+            _fail("_predict_proba_for_estimator: the test must compare proba.shape[1] with self.n_classes",
+                  conds[0][0] if conds else None)
+        short = short_cond[conds[0][0]] == conds[0][1]
+        seen.add(short)
+        if not short:
+            if effs or term[1] != raw:
+                _fail("_predict_proba_for_estimator: a tree that saw every class must contribute its row unchanged")
+            continue
+        if len(effs) != 1 or effs[0][0] != "setitem":
+            _fail("_predict_proba_for_estimator: the short row must be written into a zero matrix", effs[0] if effs else None)
+        _, base, idx, val = effs[0]
+        pos = ("call", ("attr", ("global", "np"), "searchsorted"), (sattr("classes_"), ("attr", est, "classes_")), ())
+        if not (fn_of(base) == "np.zeros" and len(base[2]) == 1 and base[2][0][0] == "tuple" and len(base[2][0][1]) == 2
+                and base[2][0][1][1] == ncls and idx == ("tuple", (SLICE_ALL, pos)) and val == raw and term[1] == base):
+            _fail("_predict_proba_for_estimator: the tree's columns must go to np.searchsorted(self.classes_, "
+                  "estimator.classes_) of a zero matrix with n_classes columns", effs[0])
+    if seen != {True, False}:
+        _fail("_predict_proba_for_estimator: both outcomes of the column test expected")
+    # searchsorted of a sorted sub-list of the sorted classes_ = the positions of its labels
+    return "if Nat.eqb (length row) (length classes) then row else place_row eqb classes tcls row"
+
+
+def _attr_assignments(mod, cls, attr):
+    """texts of the values assigned to self.<attr> anywhere in the class outside __init__"""
+    c = [n for n in mod.body if isinstance(n, ast.ClassDef) and n.name == cls][0]
     out = []
-    allowed = [a if a.endswith(": raise") else _canon(a) for a in allowed]
-    for s in stmts:
-        t = _u(s)
-        if t in allowed:
-            continue
-        if isinstance(s, ast.If) and not s.orelse and len(s.body) == 1 and isinstance(s.body[0], ast.Raise) \
-                and ("if %s: raise" % _u(s.test)) in allowed:
-            continue
-        out.append(s)
+    for fn in c.body:
+        if isinstance(fn, ast.FunctionDef) and fn.name != "__init__":
+            for s in ast.walk(fn):
+                if isinstance(s, ast.Assign) and any(_u(t) == "self." + attr for t in s.targets):
+                    out.append(_u(s.value))
+                if isinstance(s, ast.AugAssign) and _u(s.target) == "self." + attr:
+                    out.append("<aug> " + _u(s.value))
     return out
 
 
-# ------------------------------------------------------------------------------------------------
-# numeric combination expressions.  Types: 'M' = the list of the members' matrices (rows per
-# instance are handled pointwise: for ONE instance, a list of rows), 'R' = one row, 'S' = scalar.
+def _canon(text):
+    return ast.unparse(ast.parse(text))
 
 
-def _comb(e, env, k="k", rows="rows"):
-    """-> (coq text, type)"""
-    t = _u(e)
-    if isinstance(e, ast.Name) and e.id in env:
-        return env[e.id]
-    if isinstance(e, (ast.Attribute, ast.Call)) and t in env:
-        return env[t]
-    if isinstance(e, ast.Call) and _u(e.func) == "np.sum" and len(e.args) == 1 and \
-            [(kw.arg, _u(kw.value)) for kw in e.keywords] == [("axis", "0")]:
-        a, ta = _comb(e.args[0], env, k, rows)
-        if ta == "M":
-            return "(vsum %s %s)" % (k, a), "R"
-    if isinstance(e, ast.Call) and _u(e.func) in ("np.average", "np.mean") and len(e.args) == 1 and \
-            [(kw.arg, _u(kw.value)) for kw in e.keywords] == [("axis", "0")]:
-        a, ta = _comb(e.args[0], env, k, rows)
-        if ta == "M":
-            return "(mean_rows %s %s)" % (k, a), "R"
-    if isinstance(e, ast.Call) and _u(e.func) == "np.ones" and len(e.args) == 1 and not e.keywords \
-            and _u(e.args[0]) in ("self.n_classes",):
-        return "1", "S"                     # a vector of ones broadcast against a row: the scalar 1
-    if isinstance(e, ast.BinOp) and isinstance(e.op, (ast.Mult, ast.Div)):
-        a, ta = _comb(e.left, env, k, rows)
-        b, tb = _comb(e.right, env, k, rows)
-        if ta == "S" and tb == "S":
-            return "(%s %s %s)" % (a, "*" if isinstance(e.op, ast.Mult) else "/", b), "S"
-        if ta == "R" and tb == "S" and isinstance(e.op, ast.Div):
-            return "(map (fun s => s / %s) %s)" % (b, a), "R"
-    _fail("combination expression", e)
+def _class_dictionary_facts(mod, cls, what, extra):
+    """what the vote counters rely on: classes_ = sorted distinct labels, class_dictionary[label] =
+    its index in classes_, + `extra` {attribute: value text}"""
+    want = {"classes_": "class_distribution(np.asarray(y).reshape(-1, 1))[0][0]"}
+    want.update(extra)
+    for a, v in want.items():
+        got = _attr_assignments(mod, cls, a)
+        if got != [_canon(v)[:]]:
+            _fail("%s: self.%s is assigned %s, expected only %s" % (what, a, got, v))
+    c = [n for n in mod.body if isinstance(n, ast.ClassDef) and n.name == cls][0]
+    writes = []
+    for fn in c.body:
+        if isinstance(fn, ast.FunctionDef) and fn.name != "__init__":
+            for s in ast.walk(fn):
+                if isinstance(s, ast.For):
+                    for b in s.body:
+                        if isinstance(b, ast.Assign) and _u(b.targets[0]).startswith("self.class_dictionary["):
+                            writes.append((_u(s.iter), _u(s.target), _u(b.targets[0]), _u(b.value)))
+                elif isinstance(s, ast.Assign) and _u(s.targets[0]).startswith("self.class_dictionary") \
+                        and not any(isinstance(p, ast.For) and s in p.body for p in ast.walk(fn)):
+                    writes.append(("?", "?", _u(s.targets[0]), _u(s.value)))
+    ok = len(writes) == 1 and writes[0][0] == "enumerate(self.classes_)"
+    if ok:
+        it, tgt, key, val = writes[0]
+        names = [x.strip("() ") for x in tgt.split(",")]
+        ok = len(names) == 2 and key == "self.class_dictionary[%s]" % names[1] and val == names[0]
+    if not ok:
+        _fail("%s: class_dictionary must be filled once, as {label: index for index, label in enumerate(classes_)}, "
+              "found %s" % (what, writes))
 
 
-def _parallel_gen(value, what):
-    """Parallel(n_jobs=..)(delayed(F)(args) for i in range(self.n_estimators)) -> (F text, [arg texts])"""
-    if not (isinstance(value, ast.Call) and isinstance(value.func, ast.Call)
-            and _u(value.func.func) == "Parallel" and len(value.args) == 1
-            and isinstance(value.args[0], ast.GeneratorExp)):
-        _fail(what + ": Parallel(...)(generator) expected", value)
-    g = value.args[0]
-    if not (len(g.generators) == 1 and not g.generators[0].ifs and _u(g.generators[0].target) == "i"
-            and _u(g.generators[0].iter) == "range(self.n_estimators)"):
-        _fail(what + ": one member per i in range(self.n_estimators) expected", value)
-    c = g.elt
-    if not (isinstance(c, ast.Call) and isinstance(c.func, ast.Call) and _u(c.func.func) == "delayed"
-            and len(c.func.args) == 1 and not c.keywords):
-        _fail(what + ": delayed(F)(args) expected", value)
-    return _u(c.func.args[0]), [_u(a) for a in c.args]
+def _votes(ctx, what, weighted):
+    """BOSSEnsemble / ContractableBOSS.predict_proba -> normalisation text over
+    (map (fun c => weight_for eqb c vs) classes)"""
+    node = _run(ctx, "predict_proba", ["X"], what)
+    effs, term = main_path(node, what, neutral={"clf.predict"})
+    if term[0] != "ret":
+        _fail("%s.predict_proba must return the rows" % what)
+    n_inst = ("sub", ("attr", X, "shape"), C(0))
+    loops = [e for e in effs if e[0] == "for"]
+    if len(loops) != 1 or [e for e in effs if e[0] != "for"]:
+        _fail("%s.predict_proba: one loop over the members expected, found %s" % (what, [show(e)[:60] for e in effs]))
+    _, it, tgt, body, lv = loops[0]
+    zipped = None
+    if it == sattr("classifiers") and isinstance(tgt, str):
+        member, position = lv, None
+    elif it == ("call", ("global", "enumerate"), (sattr("classifiers"),), ()) and isinstance(tgt, tuple) and len(tgt) == 2:
+        member, position = ("proj", lv, 1, 2), ("proj", lv, 0, 2)
+    elif it == ("call", ("global", "zip"), (sattr("classifiers"), sattr("weights")), ()) and isinstance(tgt, tuple) \
+            and len(tgt) == 2:
+        member, position, zipped = ("proj", lv, 0, 2), None, ("proj", lv, 1, 2)
+    else:
+        _fail("%s.predict_proba: the loop must run over self.classifiers" % what, it)
+    beffs, bterm = straight(body, what + " member loop", neutral=VALIDATION_NEUTRAL)
+    preds = ("call", ("attr", member, "predict"), (X,), ())
+    inner = [e for e in beffs if e[0] == "for"]
+    if [e for e in beffs if e[0] != "for" and e != preds] or len(inner) != 1:
+        _fail("%s: a member votes with its own predict(X), once per instance" % what)
+    _, it2, tgt2, body2, lv2 = inner[0]
+    if it2 not in (("call", ("global", "range"), (n_inst,), ()), ("call", ("global", "range"), (C(0), n_inst), ())):
+        _fail("%s: the votes must be counted for every instance of X" % what, it2)
+    ieffs, iterm = straight(body2, what + " instance loop", neutral=VALIDATION_NEUTRAL)
+    if len(ieffs) != 1 or ieffs[0][0] != "augitem" or ieffs[0][3] != "Add":
+        _fail("%s: one `votes[i, column] += increment` per member and instance expected" % what)
+    _, table, idx, _op, inc = ieffs[0]
+    want_idx = ("tuple", (lv2, ("sub", sattr("class_dictionary"), ("sub", preds, lv2))))
+    if idx != want_idx:
+        _fail("%s: the vote of a member must go to column class_dictionary[its predicted label] of row i" % what, idx)
+    if not (fn_of(table) == "np.zeros" and list(table[2]) == [("tuple", (n_inst, sattr("n_classes")))] and not table[3]):
+        _fail("%s: the votes must be counted in a zero matrix of shape (instances, n_classes)" % what, table)
+    want_inc = ("sub", sattr("weights"), position) if weighted else C(1)
+    if weighted and position is None:
+        want_inc = zipped if it[1] == ("global", "zip") else None     # the weight paired with the member
+    if inc != want_inc:
+        _fail("%s: vote increment %s, expected %s" % (what, show(inc), show(want_inc)))
+    denom = sattr("weight_sum") if weighted else sattr("n_estimators")
 
-
-PREDICT_DECODE = "return np.asarray([self.classes_[np.argmax(prob)] for prob in proba])"
-
-
-def _forest_predict(cls_fn, what):
-    b = [_u(s) for s in _body(cls_fn)]
-    if b != _canon(["proba = self.predict_proba(X)", PREDICT_DECODE]):
-        _fail("%s.predict is not `classes_[argmax(row)]` of predict_proba" % what, cls_fn)
-    return "nth_error classes (argmax_first row)"
-
-
-CHECKS = ["self.check_is_fitted()", "X = check_X(X, enforce_univariate=True, coerce_to_numpy=True)",
-          "X = X.squeeze(1)"]
-
-
-def _tsf_like(mod, cls, helper, helper_body, member_args, what):
-    """TimeSeriesForestClassifier.predict_proba -> combine text"""
-    fn = _find(mod, cls + ".predict_proba")
-    st = _strip(_body(fn), CHECKS + ["_, series_length = X.shape",
-                                     "if series_length != self.series_length: raise"], what)
-    if len(st) != 3:
-        _fail("%s.predict_proba: members, combination, return expected" % what, fn)
-    a = _assign1(st[0])
-    if not a:
-        _fail("%s.predict_proba: members" % what, st[0])
-    f, args = _parallel_gen(a[1], what)
-    if f != helper or args != member_args:
-        _fail("%s: member i must be %s(%s)" % (what, helper, ", ".join(member_args)), st[0])
-    o = _assign1(st[1])
-    if not o or _u(st[2]) != "return %s" % o[0]:
-        _fail("%s.predict_proba: combination / return" % what, st[1])
-    txt, ty = _comb(o[1], {a[0]: ("rows", "M"), "self.n_estimators": ("qlen rows", "S")})
+    def norm(t):
+        if t == table:
+            return "(map (fun c => weight_for eqb c vs) classes)", "R"
+        if t == denom:
+            return "denom", "S"
+        if t[0] == "call" and fn_of(t) == "np.ones" and list(t[2]) == [sattr("n_classes")] and not t[3]:
+            return "1", "S"
+        if t[0] == "binop" and t[1] in ("Mult", "Div"):
+            a, ta = norm(t[2])
+            b, tb = norm(t[3])
+            if ta == "S" and tb == "S":
+                return "(%s %s %s)" % (a, "*" if t[1] == "Mult" else "/", b), "S"
+            if ta == "R" and tb == "S" and t[1] == "Div":
+                return "(map (fun s => s / %s) %s)" % (b, a), "R"
+        _fail("%s: normalisation" % what, t)
+    txt, ty = norm(term[1])
     if ty != "R":
-        _fail("%s.predict_proba does not return one row per instance" % what, st[1])
-    if helper_body is not None:
-        hf = _find(mod, helper)
-        if [_u(s) for s in _body(hf)] != _canon(helper_body):
-            _fail("%s changed" % helper, hf)
-    return txt
-
-
-# ------------------------------------------------------------------------------------------------
-
-
-def _stsf_place(mod):
-    fn = _find(mod, "SupervisedTimeSeriesForest._predict_proba_for_estimator")
-    if _params(fn) != ["self", "X", "X_p", "X_d", "intervals", "estimator"]:
-        _fail("_predict_proba_for_estimator signature", fn)
-    st = _body(fn)
-    # the feature construction: assignments to n_instances / transformed_x only
-    i = 0
-    while i < len(st):
-        s = st[i]
-        if isinstance(s, ast.Assign) and _u(s.targets[0]) in ("n_instances, _", "(n_instances, _)", "transformed_x"):
-            i += 1
-            continue
-        break
-    tail = st[i:]
-    if len(tail) == 1 and _u(tail[0]) == "return estimator.predict_proba(transformed_x)":
-        return "row"                      # the tree's row as it is (no placement: F-C17-1)
-    want_if = ("if proba.shape[1] != self.n_classes:\n"
-               "    full = np.zeros((n_instances, self.n_classes))\n"
-               "    full[:, np.searchsorted(self.classes_, estimator.classes_)] = proba\n"
-               "    proba = full")
-    if [_u(s) for s in tail] == _canon(["proba = estimator.predict_proba(transformed_x)", want_if, "return proba"]):
-        # searchsorted of a sorted sub-list of the sorted classes_ = the positions of its labels
-        return ("if Nat.eqb (length row) (length classes) then row "
-                "else place_row eqb classes tcls row")
-    _fail("_predict_proba_for_estimator: the tree's columns are neither returned as they are nor placed "
-          "through np.searchsorted(self.classes_, estimator.classes_)", tail[0] if tail else fn)
-
-
-def _boss_facts(mod, cls, inc_text, denom_attr, fit_fact, what):
-    fn = _find(mod, cls + ".predict_proba")
-    st = _strip(_body(fn), ["self.check_is_fitted()",
-                            "X = check_X(X, enforce_univariate=True, coerce_to_numpy=True)"], what)
-    want_loop_head = {"for clf in self.classifiers:": False, "for (n, clf) in enumerate(self.classifiers):": True,
-                      "for n, clf in enumerate(self.classifiers):": True}
-    if not (len(st) == 4 and _u(st[0]) == "sums = np.zeros((X.shape[0], self.n_classes))"
-            and isinstance(st[1], ast.For) and _u(st[3]) == "return dists"):
-        _fail("%s.predict_proba: zeros, vote loop, normalisation, return expected" % what, fn)
-    loop = st[1]
-    head = "for %s in %s:" % (_u(loop.target), _u(loop.iter))
-    if head not in want_loop_head or loop.orelse or len(loop.body) != 2:
-        _fail("%s.predict_proba: loop over the members" % what, loop)
-    if _u(loop.body[0]) != "preds = clf.predict(X)":
-        _fail("%s: a member votes with its own predict" % what, loop.body[0])
-    inner = loop.body[1]
-    if not (isinstance(inner, ast.For) and _u(inner.target) == "i" and _u(inner.iter) == "range(0, X.shape[0])"
-            and len(inner.body) == 1 and isinstance(inner.body[0], ast.AugAssign)
-            and isinstance(inner.body[0].op, ast.Add)
-            and _u(inner.body[0].target) == "sums[i, self.class_dictionary[preds[i]]]"):
-        _fail("%s: the vote of a member goes to column class_dictionary[its predicted label]" % what, inner)
-    inc = _u(inner.body[0].value)
-    if inc != inc_text:
-        _fail("%s: vote increment %s, expected %s" % (what, inc, inc_text), inner)
-    d = _assign1(st[2])
-    if not d or d[0] != "dists":
-        _fail("%s: normalisation" % what, st[2])
-    txt, ty = _comb(d[1], {"sums": ("(map (fun c => weight_for eqb c vs) classes)", "R"),
-                           "self." + denom_attr: ("denom", "S")})
-    if ty != "R":
-        _fail("%s: normalisation type" % what, st[2])
-    # facts of fit: classes_ sorted distinct labels, class_dictionary = enumerate(classes_), denominator
-    fit = _find(mod, cls + ".fit")
-    texts = [_u(s) for s in ast.walk(fit) if isinstance(s, ast.stmt)]
-    need = ["self.classes_ = class_distribution(np.asarray(y).reshape(-1, 1))[0][0]",
-            "for index, classVal in enumerate(self.classes_):\n    self.class_dictionary[classVal] = index",
-            fit_fact]
-    fit_fact = _canon(fit_fact)
-    for n in _canon(need):
-        if texts.count(n) != 1:
-            _fail("%s.fit: expected exactly once: %s" % (what, n), fit)
-    # the denominator attribute is assigned nowhere else in fit
-    assigns = [t for t in texts if t.startswith("self.%s =" % denom_attr) or t.startswith("self.%s +=" % denom_attr)]
-    if assigns != [fit_fact]:
-        _fail("%s.fit: self.%s assigned by %s" % (what, denom_attr, assigns), fit)
+        _fail("%s: normalisation type" % what)
     return txt
 
 
 def _cboss_weight(mod):
     """ContractableBOSS.fit: the weight a member votes with, as a function of its train accuracy"""
-    from fractions import Fraction
-    fit = _find(mod, "ContractableBOSS.fit")
+    fit = [f for c in mod.body if isinstance(c, ast.ClassDef) and c.name == "ContractableBOSS"
+           for f in c.body if isinstance(f, ast.FunctionDef) and f.name == "fit"][0]
     base = _canon("weight = math.pow(boss.accuracy, 4)")
+    alt = _canon("weight = boss.accuracy ** 4")
     hits = []
     for node in ast.walk(fit):
         for field in ("body", "orelse"):
             lst = getattr(node, field, None)
             if isinstance(lst, list):
                 for i, st in enumerate(lst):
-                    if isinstance(st, ast.stmt) and _u(st) == base:
+                    if isinstance(st, ast.stmt) and _u(st) in (base, alt):
                         hits.append((lst, i))
     if len(hits) != 1:
         _fail("ContractableBOSS.fit: `weight = math.pow(boss.accuracy, 4)` expected exactly once", fit)
@@ -293,253 +405,294 @@ def _cboss_weight(mod):
     txt = "let w := acc * acc * acc * acc in "
     nxt = lst[i + 1] if i + 1 < len(lst) else None
     floor = None
-    if isinstance(nxt, ast.If) and _u(nxt.test) == "weight == 0":
-        a = _assign1(nxt.body[0]) if len(nxt.body) == 1 and not nxt.orelse else None
-        if not (a and a[0] == "weight" and isinstance(a[1], ast.Constant) and isinstance(a[1].value, float)
-                and a[1].value > 0):
+    if isinstance(nxt, ast.If) and _u(nxt.test) in ("weight == 0", "weight <= 0", "not weight", "weight == 0.0"):
+        a = nxt.body[0] if len(nxt.body) == 1 and not nxt.orelse else None
+        if not (isinstance(a, ast.Assign) and _u(a.targets[0]) == "weight" and isinstance(a.value, ast.Constant)
+                and isinstance(a.value.value, float) and a.value.value > 0):
             _fail("ContractableBOSS.fit: the replacement of a zero weight must be a positive constant", nxt)
-        floor = Fraction(repr(a[1].value))
-    # every other statement that touches `weight` or self.weights must be one of these
-    allowed = _canon(["self.weights = []", "self.weights.append(weight)", "self.weights[lowest_acc_idx] = weight",
-                      "self.weight_sum = np.sum(self.weights)"]) + [base]
+        floor = Fraction(repr(a.value.value))
+    allowed = [_canon(x) for x in ["self.weights = []", "self.weights.append(weight)",
+                                   "self.weights[lowest_acc_idx] = weight",
+                                   "self.weight_sum = np.sum(self.weights)"]] + [base, alt]
     for st in ast.walk(fit):
         if isinstance(st, (ast.Assign, ast.AugAssign, ast.Expr)):
             t = _u(st)
             if ("self.weights" in t or t.startswith("weight ") or t.startswith("weight=")) and t not in allowed \
-                    and not (nxt is not None and floor is not None and st in nxt.body):
+                    and not (floor is not None and st in nxt.body):
                 _fail("ContractableBOSS.fit: unexpected statement about the weights", st)
     if floor is None:
         return txt + "w"
     return txt + "if Qeq_bool w 0 then (%d # %d) else w" % (floor.numerator, floor.denominator)
 
 
-def _iboss(mod):
-    fn = _find(mod, "IndividualBOSS.predict_proba")
-    want = ["preds = self.predict(X)", "dists = np.zeros((X.shape[0], self.num_classes))",
-            "for i in range(0, X.shape[0]):\n    dists[i, self.class_dictionary.get(preds[i])] += 1", "return dists"]
-    if [_u(s) for s in _body(fn)] != _canon(want):
-        _fail("IndividualBOSS.predict_proba is not the one-hot row of its own prediction", fn)
-    fit = _find(mod, "IndividualBOSS.fit")
-    texts = [_u(s) for s in ast.walk(fit) if isinstance(s, ast.stmt)]
-    for n in _canon(["self.classes_ = class_distribution(np.asarray(y).reshape(-1, 1))[0][0]",
-                     "for index, classVal in enumerate(self.classes_):\n    self.class_dictionary[classVal] = index"]):
-        if texts.count(n) != 1:
-            _fail("IndividualBOSS.fit: expected exactly once: %s" % n, fit)
+def _iboss(ctx):
+    node = _run(ctx, "predict_proba", ["X"], "IndividualBOSS.predict_proba")
+    effs, term = main_path(node, "IndividualBOSS.predict_proba", neutral={"self.predict"})
+    n_inst = ("sub", ("attr", X, "shape"), C(0))
+    preds = ("call", sattr("predict"), (X,), ())
+    loops = [e for e in effs if e[0] == "for"]
+    if term[0] != "ret" or len(loops) != 1 or [e for e in effs if e[0] != "for"]:
+        _fail("IndividualBOSS.predict_proba: one loop over the instances expected")
+    _, it, tgt, body, lv = loops[0]
+    if it not in (("call", ("global", "range"), (n_inst,), ()), ("call", ("global", "range"), (C(0), n_inst), ())):
+        _fail("IndividualBOSS.predict_proba: loop over the instances of X", it)
+    ieffs, _t = straight(body, "IndividualBOSS loop", neutral=VALIDATION_NEUTRAL | {"self.class_dictionary.get"})
+    if len(ieffs) != 1 or ieffs[0][0] != "augitem" or ieffs[0][3:] != ("Add", C(1)):
+        _fail("IndividualBOSS.predict_proba: dists[i, column] += 1 expected")
+    _, table, idx, _o, _i = ieffs[0]
+    lab = ("sub", preds, lv)
+    cols = (("call", ("attr", sattr("class_dictionary"), "get"), (lab,), ()), ("sub", sattr("class_dictionary"), lab))
+    if idx not in [("tuple", (lv, c)) for c in cols] or term[1] != table or not (
+            fn_of(table) == "np.zeros" and list(table[2]) == [("tuple", (n_inst, sattr("num_classes")))]):
+        _fail("IndividualBOSS.predict_proba is not the one-hot row of its own prediction", idx)
     return "map (fun c => if eqb pred c then 1 else 0) classes"
 
 
-def _colens(mod):
-    fn = _find(mod, "BaseColumnEnsembleClassifier.predict_proba")
-    st = _strip(_body(fn), ["self.check_is_fitted()"], "column ensemble")
-    a = _assign1(st[0]) if st else None
-    if not (len(st) == 2 and a and _u(st[1]) == "return %s" % a[0]):
-        _fail("column ensemble predict_proba", fn)
-    txt, ty = _comb(a[1], {"self._collect_probas(X)": ("rows", "M")})
-    cf = _find(mod, "BaseColumnEnsembleClassifier._collect_probas")
-    want = ("return np.asarray([estimator.predict_proba(_get_column(X, column)) "
-            "for (name, estimator, column) in self._iter(replace_strings=True)])")
-    if [_u(s) for s in _body(cf)] != [_canon(want)]:
-        _fail("_collect_probas: every member must predict on its own column(s)", cf)
-    pf = _find(mod, "BaseColumnEnsembleClassifier.predict")
-    if [_u(s) for s in _body(pf)] != _canon(["maj = np.argmax(self.predict_proba(X), axis=1)",
-                                             "return self.le_.inverse_transform(maj)"]):
-        _fail("column ensemble predict is not le_.inverse_transform(argmax)", pf)
-    fit = _find(mod, "BaseColumnEnsembleClassifier.fit")
-    texts = [_u(s) for s in ast.walk(fit) if isinstance(s, ast.stmt)]
-    for n in _canon(["self.le_ = LabelEncoder().fit(y)", "self.classes_ = self.le_.classes_"]):
-        if texts.count(n) != 1:
-            _fail("column ensemble fit: expected exactly once: %s" % n, fit)
+def _colens(ctx, mod):
+    v = _ret(ctx, "predict_proba", ["X"], "column ensemble predict_proba", neutral={"self._iter", "_get_column"})
+    comps = [t for t in _subterms(v) if t[0] == "comp"]
+    if len(set(comps)) != 1:
+        _fail("column ensemble: the members' rows must come from one comprehension over the members", v)
+    comp = comps[0]
+    _, elt, var, it = comp
+    if it != ("call", sattr("_iter"), (), (("replace_strings", C(True)),)):
+        _fail("column ensemble: the members are self._iter(replace_strings=True)", it)
+    est, col = ("proj", var, 1, 3), ("proj", var, 2, 3)
+    want = ("call", ("attr", est, "predict_proba"), (("call", ("global", "_get_column"), (X, col), ()),), ())
+    if elt != want:
+        _fail("column ensemble: every member must predict on its own column(s)", elt)
+    rows = comp
+    # np.asarray(list) is the list (hook)
+    txt, ty = _comb(v, rows, "column ensemble")
+    if ty != "R":
+        _fail("column ensemble: combination type")
+    p = _ret(ctx, "predict", ["X"], "column ensemble predict", neutral={"self.predict_proba", "self.le_.inverse_transform"})
+    proba = ("call", sattr("predict_proba"), (X,), ())
+    want_p = ("call", ("attr", sattr("le_"), "inverse_transform"),
+              (("call", ("attr", ("global", "np"), "argmax"), (proba,), (("axis", C(1)),)),), ())
+    if p != want_p:
+        _fail("column ensemble predict is not le_.inverse_transform(argmax of every row)", p)
+    if _attr_assignments(mod, "BaseColumnEnsembleClassifier", "le_") != ["LabelEncoder().fit(y)"] or \
+            _attr_assignments(mod, "BaseColumnEnsembleClassifier", "classes_") != ["self.le_.classes_"]:
+        _fail("column ensemble fit: le_ = LabelEncoder().fit(y); classes_ = le_.classes_ expected")
     return txt
 
 
-def _base(mod):
-    fn = _find(mod, "BaseClassifier.predict")
-    st = _strip(_body(fn), ["X = check_X(X)", "self.check_is_fitted()"], "BaseClassifier.predict")
-    want = ["distributions = self.predict_proba(X)", "predictions = []",
-            "for instance_index in range(0, X.shape[0]):\n"
-            "    distribution = distributions[instance_index]\n"
-            "    prediction = np.argmax(distribution)\n"
-            "    predictions.append(prediction)",
-            "predictions = self.label_encoder.inverse_transform(predictions)", "return predictions"]
-    if [_u(s) for s in st] != _canon(want):
-        _fail("BaseClassifier.predict is not label_encoder.inverse_transform(argmax of each row)", fn)
-    sf = _find(mod, "BaseClassifier.score")
-    if [_u(s) for s in _body(sf)] != _canon(["from sklearn.metrics import accuracy_score",
-                                             "return accuracy_score(y, self.predict(X), normalize=True)"]):
-        _fail("BaseClassifier.score is not accuracy_score(y, self.predict(X), normalize=True)", sf)
+def _base(ctx):
+    proba = ("call", sattr("predict_proba"), (X,), ())
+    node = _run(ctx, "predict", ["X"], "BaseClassifier.predict")
+    effs, term = main_path(node, "BaseClassifier.predict", neutral={"self.predict_proba", "self.label_encoder.inverse_transform"})
+    if term[0] != "ret":
+        _fail("BaseClassifier.predict must return the labels")
+    v = term[1]
+    if not (v[0] == "call" and v[1] == ("attr", sattr("label_encoder"), "inverse_transform") and len(v[2]) == 1 and not v[3]):
+        _fail("BaseClassifier.predict must decode with label_encoder.inverse_transform", v)
+    arg = v[2][0]
+    am = ("attr", ("global", "np"), "argmax")
+    ok = False
+    if arg == ("call", am, (proba,), (("axis", C(1)),)) and not effs:
+        ok = True
+    elif arg[0] == "comp" and not effs:
+        _, elt, var, it = arg
+        n_inst = ("sub", ("attr", X, "shape"), C(0))
+        ok = (it == proba and elt == ("call", am, (var,), ())) or \
+            (it in (("call", ("global", "range"), (n_inst,), ()), ("call", ("global", "range"), (C(0), n_inst), ()))
+             and elt == ("call", am, (("sub", proba, var),), ()))
+    elif arg == ("list", ()) and len(effs) == 1 and effs[0][0] == "for":
+        _, it, tgt, body, lv = effs[0]
+        n_inst = ("sub", ("attr", X, "shape"), C(0))
+        beffs, _t = straight(body, "BaseClassifier.predict loop", neutral=VALIDATION_NEUTRAL)
+        ok = it in (("call", ("global", "range"), (n_inst,), ()), ("call", ("global", "range"), (C(0), n_inst), ())) \
+            and beffs == [("call", ("attr", ("list", ()), "append"), (("call", am, (("sub", proba, lv),), ()),), ())]
+    if not ok:
+        _fail("BaseClassifier.predict is not label_encoder.inverse_transform(argmax of each row)", arg)
+    s = _ret(ctx, "score", ["X", "y"], "BaseClassifier.score", neutral={"self.predict", "accuracy_score"})
+    want = ("call", ("global", "accuracy_score"), (("param", "y"), ("call", sattr("predict"), (X,), ())), (("normalize", C(True)),))
+    if s not in (want, ("call", ("global", "accuracy_score"), want[2], ())):
+        _fail("BaseClassifier.score is not accuracy_score(y, self.predict(X), normalize=True)", s)
 
 
-def _regressor(mod):
-    fn = _find(mod, "TimeSeriesForestRegressor.predict")
-    st = _strip(_body(fn), CHECKS + ["_, series_length = X.shape",
-                                     "if series_length != self.series_length: raise"], "forest regressor")
-    a = _assign1(st[0]) if st else None
-    if not (len(st) == 2 and a and isinstance(st[1], ast.Return)):
-        _fail("TimeSeriesForestRegressor.predict: members, return expected", fn)
-    f, args = _parallel_gen(a[1], "forest regressor")
-    if f != "_predict" or args != ["X", "self.estimators_[i]", "self.intervals_[i]"]:
-        _fail("forest regressor: tree i must predict on the features of its own intervals", st[0])
-    if _u(st[1].value) != "np.mean(%s, axis=0)" % a[0]:
-        _fail("forest regressor does not return the mean over the trees", st[1])
-    hf = _find(mod, "_predict")
-    if [_u(s) for s in _body(hf)] != _canon(["Xt = _transform(X, intervals)", "return estimator.predict(Xt)"]):
-        _fail("_predict changed", hf)
-    return "qmean preds"
+def _linear(t, var):
+    """index term a*var + b -> (a, b)"""
+    if t == var:
+        return 1, 0
+    if t[0] == "const" and isinstance(t[1], int):
+        return 0, t[1]
+    if t[0] == "add":
+        a1, b1 = _linear(t[1], var)
+        a2, b2 = _linear(t[2], var)
+        return a1 + a2, b1 + b2
+    if t[0] == "binop" and t[1] == "Mult":
+        for x, y in ((t[2], t[3]), (t[3], t[2])):
+            if x[0] == "const" and isinstance(x[1], int):
+                a, b = _linear(y, var)
+                return x[1] * a, x[1] * b
+    _fail("_transform: feature row index", t)
 
 
-def _transform_facts(mod):
-    """_transform: per interval j the slice [iv0, iv1) and the rows 3j, 3j+1, 3j+2 -> feature order"""
-    fn = _find(mod, "_transform")
-    st = [_u(s) for s in _body(fn)]
-    want_head = _canon(["n_instances, _ = X.shape", "n_intervals, _ = intervals.shape",
-                        "transformed_x = np.empty(shape=(3 * n_intervals, n_instances), dtype=np.float32)"])
-    if st[:3] != want_head or st[-1] != "return transformed_x.T" or len(st) != 5:
-        _fail("_transform: prelude / return", fn)
-    loop = _body(fn)[3]
-    if not (isinstance(loop, ast.For) and _u(loop.target) == "j" and _u(loop.iter) == "range(n_intervals)"):
-        _fail("_transform: loop over the intervals", loop)
-    feats = {}
+def _transform_facts(ctx):
+    node = _run(ctx, "_transform", ["X", "intervals"], "_transform")
+    effs, term = main_path(node, "_transform")
+    loops = [e for e in effs if e[0] == "for"]
+    if len(loops) != 1 or [e for e in effs if e[0] != "for"] or term[0] != "ret":
+        _fail("_transform: one loop over the intervals expected")
+    _, it, tgt, body, lv = loops[0]
+    iv = ("param", "intervals")
+    n_iv = ("sub", ("attr", iv, "shape"), C(0))
+    it = unproj(it)
+    if it not in (("call", ("global", "range"), (n_iv,), ()), ("call", ("global", "range"), (("sub", ("attr", iv, "shape"), C(0)),), ()),
+                  ("call", ("global", "range"), (("call", ("global", "len"), (iv,), ()),), ())):
+        _fail("_transform: the loop must run over the intervals", it)
+    beffs, _t = straight(body, "_transform loop", neutral=VALIDATION_NEUTRAL)
+    beffs = [unproj(e) for e in beffs]
+    lv = unproj(lv)
+    sl = ("sub", X, ("tuple", (SLICE_ALL, ("slice", ("sub", ("sub", iv, lv), C(0)), ("sub", ("sub", iv, lv), C(1)), NONE))))
+    feat = {("call", ("attr", ("global", "np"), "mean"), (sl,), (("axis", C(1)),)): "qmean w",
+            ("call", ("attr", ("global", "np"), "std"), (sl,), (("axis", C(1)),)): "qvar w",
+            ("call", ("global", "_slope"), (sl,), (("axis", C(1)),)): "code_slope w"}
     rows = {}
-    slice_ = None
-    for s in loop.body:
-        a = _assign1(s)
-        if a and a[0] == "X_slice":
-            if _u(a[1]) != "X[:, intervals[j][0]:intervals[j][1]]":
-                _fail("_transform: the slice is not [start, end) of interval j", s)
-            slice_ = "(fst iv, snd iv)"
-        elif a and _u(a[1]) in ("np.mean(X_slice, axis=1)", "np.std(X_slice, axis=1)", "_slope(X_slice, axis=1)"):
-            feats[a[0]] = {"np.mean": "qmean w", "np.std": "qvar w", "_slope": "code_slope w"}[
-                _u(a[1].func)]
-        elif isinstance(s, ast.Assign) and len(s.targets) == 1 and _u(s.targets[0]).startswith("transformed_x[") \
-                and isinstance(s.value, ast.Name) and s.value.id in feats:
-            idx = _u(s.targets[0].slice)
-            if idx not in ("3 * j", "3 * j + 1", "3 * j + 2"):
-                _fail("_transform: feature row index", s)
-            rows[{"3 * j": 0, "3 * j + 1": 1, "3 * j + 2": 2}[idx]] = feats[s.value.id]
-        else:
-            _fail("_transform: statement", s)
-    if slice_ is None or sorted(rows) != [0, 1, 2]:
-        _fail("_transform: three features per interval expected", fn)
+    table = None
+    for e in beffs:
+        if e[0] != "setitem" or e[3] not in feat:
+            _fail("_transform: only `transformed_x[row] = mean / std / slope of X[:, start:end]` may happen", e)
+        a, b = _linear(e[2], lv)
+        if a != 3 or b not in (0, 1, 2) or b in rows:
+            _fail("_transform: feature row index", e[2])
+        rows[b] = feat[e[3]]
+        table = table or e[1]
+        if e[1] != table:
+            _fail("_transform: features written into different tables")
+    if sorted(rows) != [0, 1, 2] or unproj(term[1]) != ("attr", table, "T"):
+        _fail("_transform: three features per interval, returned transposed, expected")
     return "[%s; %s; %s]" % (rows[0], rows[1], rows[2])
 
 
-def _zexpr(e, env):
-    """integer arithmetic of _get_intervals"""
-    if isinstance(e, ast.Name) and e.id in env:
-        return env[e.id]
-    if isinstance(e, ast.Constant) and isinstance(e.value, int) and not isinstance(e.value, bool):
-        return "%d" % e.value
-    if isinstance(e, ast.Subscript) and _u(e) in env:
-        return env[_u(e)]
-    if isinstance(e, ast.BinOp) and isinstance(e.op, (ast.Add, ast.Sub)):
-        return "(%s %s %s)" % (_zexpr(e.left, env), "+" if isinstance(e.op, ast.Add) else "-",
-                               _zexpr(e.right, env))
-    _fail("_get_intervals arithmetic", e)
+def _get_intervals_facts(ctx):
+    node = _run(ctx, "_get_intervals", ["n_intervals", "min_interval", "series_length", "rng"], "_get_intervals")
+    effs, term = main_path(node, "_get_intervals", neutral={"rng.randint"})
+    loops = [e for e in effs if e[0] == "for"]
+    if len(loops) != 1 or [e for e in effs if e[0] != "for"] or term[0] != "ret":
+        _fail("_get_intervals: one loop over the intervals expected")
+    _, it, tgt, body, lv = loops[0]
+    if it != ("call", ("global", "range"), (("param", "n_intervals"),), ()):
+        _fail("_get_intervals: loop over range(n_intervals)", it)
+    draws = []
+    writes = {}
+    n = body
+    while n[0] == "eff":
+        e = n[1]
+        if e[0] == "call" and fn_of(e) == "rng.randint":
+            if len(e[2]) != 1 or e[3]:
+                _fail("_get_intervals: rng.randint(high) expected", e)
+            draws.append(e)
+        elif e[0] == "setitem" and e[1] == term[1] and e[2] == lv and e[3][0] in ("tuple", "list") and len(e[3][1]) == 2:
+            if writes:
+                _fail("_get_intervals: an interval end is written twice")
+            writes[0], writes[1] = e[3][1]
+        elif e[0] == "setitem" and e[1][0] == "sub" and e[1][2] == lv and e[2] in (C(0), C(1)):
+            table = e[1][1]
+            if e[2][1] in writes:
+                _fail("_get_intervals: an interval end is written twice")
+            writes[e[2][1]] = e[3]
+            if term[1] != table:
+                _fail("_get_intervals: the intervals written are not the ones returned")
+        elif not is_neutral(e, VALIDATION_NEUTRAL):
+            _fail("_get_intervals: unexpected operation", e)
+        n = n[2]
+    if n[0] != "end" or len(draws) != 2 or sorted(writes) != [0, 1]:
+        _fail("_get_intervals: two draws, a start and an end per interval expected")
+    start_cell = ("sub", ("sub", term[1], lv), C(0))
 
+    start_terms = []
 
-def _get_intervals_facts(mod):
-    fn = _find(mod, "_get_intervals")
-    if _params(fn) != ["n_intervals", "min_interval", "series_length", "rng"]:
-        _fail("_get_intervals signature", fn)
-    b = _body(fn)
-    if not (len(b) == 3 and _u(b[0]) == "intervals = np.zeros((n_intervals, 2), dtype=int)"
-            and isinstance(b[1], ast.For) and _u(b[1].target) == "j" and _u(b[1].iter) == "range(n_intervals)"
-            and _u(b[2]) == "return intervals"):
-        _fail("_get_intervals: zeros, loop, return expected", fn)
-    env = {"min_interval": "min_interval", "series_length": "series_length"}
-    lets = []
-    draws = 0
-    start = end = None
-    for s in b[1].body:
-        if isinstance(s, ast.Assign) and len(s.targets) == 1:
-            tgt = _u(s.targets[0])
-            v = s.value
-            if isinstance(v, ast.Call) and _u(v.func) == "rng.randint" and len(v.args) == 1 and not v.keywords:
-                draws += 1
-                txt = "(d%d mod %s)" % (draws, _zexpr(v.args[0], env))
-            else:
-                txt = _zexpr(v, env)
-            if tgt == "intervals[j][0]":
-                lets.append("let v_start := %s in" % txt)
-                env["intervals[j][0]"] = "v_start"
-                start = "v_start"
-            elif tgt == "intervals[j][1]":
-                lets.append("let v_end := %s in" % txt)
-                end = "v_end"
-            elif isinstance(s.targets[0], ast.Name):
-                n = "v_%s%d" % (tgt, len(lets))
-                lets.append("let %s := %s in" % (n, txt))
-                env[tgt] = n
-            else:
-                _fail("_get_intervals: assignment target", s)
-        elif isinstance(s, ast.If) and not s.orelse and len(s.body) == 1 and isinstance(s.test, ast.Compare) \
-                and len(s.test.ops) == 1 and isinstance(s.test.ops[0], ast.Lt):
-            a = _assign1(s.body[0])
-            if not a or a[0] not in env:
-                _fail("_get_intervals: conditional assignment", s)
-            n = "v_%s%d" % (a[0], len(lets))
-            lets.append("let %s := if (%s <? %s) then %s else %s in" % (
-                n, _zexpr(s.test.left, env), _zexpr(s.test.comparators[0], env), _zexpr(a[1], env), env[a[0]]))
-            env[a[0]] = n
-        else:
-            _fail("_get_intervals: statement", s)
-    if draws != 2 or start is None or end is None:
-        _fail("_get_intervals: two draws, a start and an end per interval expected", fn)
-    return "\n      ".join(lets) + "\n      (%s, %s)" % (start, end)
+    def z(t):
+        if start_terms and t == start_terms[0]:
+            return "v_start"
+        if t in draws:
+            return "(d%d mod %s)" % (draws.index(t) + 1, z(t[2][0]))
+        if t == start_cell:
+            return "v_start"
+        if t[0] == "param" and t[1] in ("min_interval", "series_length"):
+            return t[1]
+        if t[0] == "const" and isinstance(t[1], int) and not isinstance(t[1], bool):
+            return "%d" % t[1]
+        if t[0] == "add":
+            return "(%s + %s)" % (z(t[1]), z(t[2]))
+        if t[0] == "binop" and t[1] == "Sub":
+            return "(%s - %s)" % (z(t[2]), z(t[3]))
+        if t[0] == "ite" and t[1][0] == "cmp" and t[1][1] in ("lt", "le", "gt", "ge"):
+            op = {"lt": "<?", "le": "<=?", "gt": ">?", "ge": ">=?"}[t[1][1]]
+            return "(if (%s %s %s) then %s else %s)" % (z(t[1][2]), op, z(t[1][3]), z(t[2]), z(t[3]))
+        if t[0] == "call" and fn_of(t) == "max" and len(t[2]) == 2 and not t[3]:
+            return "(Z.max %s %s)" % (z(t[2][0]), z(t[2][1]))
+        _fail("_get_intervals arithmetic", t)
+    # the start must be drawn first (draw order = the order of the model's script)
+    z_start = z(writes[0])
+    if writes[0] != draws[0]:
+        _fail("_get_intervals: the start of the interval must be the first draw", writes[0])
+    start_terms.append(writes[0])
+    return "let v_start := %s in\n      (v_start, %s)" % (z_start, z(writes[1]))
 
 
 def translate(repo):
+    symexec_c19.TAG[0] = "combine_c17"
+
     def mod(rel):
         with open(os.path.join(repo, rel)) as f:
             return ast.parse(f.read())
     tsf, rise, stsf, reg, col = mod(P_TSF), mod(P_RISE), mod(P_STSF), mod(P_REG), mod(P_COL)
     boss, cboss, base, fbase = mod(P_BOSS), mod(P_CBOSS), mod(P_BASE), mod(P_FBASE)
-    tsf_c = _tsf_like(tsf, "TimeSeriesForestClassifier", "_predict_proba",
-                      ["Xt = _transform(X, intervals)", "return estimator.predict_proba(Xt)"],
-                      ["X", "self.estimators_[i]", "self.intervals_[i]"], "TimeSeriesForestClassifier")
-    tsf_p = _forest_predict(_find(tsf, "TimeSeriesForestClassifier.predict"), "TimeSeriesForestClassifier")
-    # STSF: same combination; members through its own method
-    fn = _find(stsf, "SupervisedTimeSeriesForest.predict_proba")
-    st = _strip(_body(fn), CHECKS + ["_, X_p = signal.periodogram(X)", "X_d = np.diff(X, 1)"], "STSF")
-    a = _assign1(st[0]) if st else None
-    if not (len(st) == 3 and a):
-        _fail("SupervisedTimeSeriesForest.predict_proba: members, combination, return expected", fn)
-    f, args = _parallel_gen(a[1], "STSF")
-    if f != "self._predict_proba_for_estimator" or args != ["X", "X_p", "X_d", "self.intervals_[i]",
-                                                            "self.estimators_[i]"]:
-        _fail("STSF: member i must be its own tree on its own intervals", st[0])
-    o = _assign1(st[1])
-    if not o or _u(st[2]) != "return %s" % o[0]:
-        _fail("STSF.predict_proba: combination / return", st[1])
-    stsf_c, ty = _comb(o[1], {a[0]: ("rows", "M"), "self.n_estimators": ("qlen rows", "S")})
-    stsf_p = _forest_predict(_find(stsf, "SupervisedTimeSeriesForest.predict"), "SupervisedTimeSeriesForest")
-    stsf_place = _stsf_place(stsf)
+    fb = [(fbase, "BaseTimeSeriesForest")]
+    prim = {"predict_proba", "predict", "fit", "_transform", "_get_intervals", "_fit_estimator", "score",
+            "_predict_proba_for_estimator", "_iter", "_train_predict", "_test_nn", "_collect_probas_never"}
+
+    def est(i):
+        return ("sub", sattr("estimators_"), i)
+    # time series forest
+    ctx = Ctx(tsf, "TimeSeriesForestClassifier", primitives=prim, hook=_hook, bases=fb)
+    tsf_c, ty = _forest(ctx, "clf", "TimeSeriesForestClassifier", lambda i: (
+        "call", ("attr", est(i), "predict_proba"),
+        (("call", ("global", "_transform"), (X, ("sub", sattr("intervals_"), i)), ()),), ()))
+    tsf_p = _decode(ctx, "TimeSeriesForestClassifier")
+    # supervised time series forest
+    ctx = Ctx(stsf, "SupervisedTimeSeriesForest", primitives=prim, hook=_hook)
+    per = ("call", ("attr", ("global", "signal"), "periodogram"), (X,), ())
+    stsf_c, ty = _forest(ctx, "clf", "SupervisedTimeSeriesForest", lambda i: (
+        "call", sattr("_predict_proba_for_estimator"),
+        (X, ("proj", per, 1, 2), ("call", ("attr", ("global", "np"), "diff"), (X, C(1)), ()),
+         ("sub", sattr("intervals_"), i), est(i)), ()))
+    stsf_p = _decode(ctx, "SupervisedTimeSeriesForest")
+    stsf_place = _stsf_place(Ctx(stsf, "SupervisedTimeSeriesForest", primitives=prim - {"_predict_proba_for_estimator"}, hook=_hook))
     # RISE
-    fn = _find(rise, "RandomIntervalSpectralForest.predict_proba")
-    st = _strip(_body(fn), CHECKS + ["n_instances, n_columns = X.shape",
-                                     "if n_columns != self.series_length: raise",
-                                     "n_jobs, _, _ = _partition_estimators(self.n_estimators, self.n_jobs)"], "RISE")
-    a = _assign1(st[0]) if st else None
-    if not (len(st) == 2 and a and isinstance(st[1], ast.Return)):
-        _fail("RandomIntervalSpectralForest.predict_proba: members, return expected", fn)
-    # (RISE passes n_jobs=n_jobs; the generator is what matters)
-    f, args = _parallel_gen(a[1], "RISE")
-    if f != "_predict_proba_for_estimator" or args != ["X", "self.estimators_[i]", "self.intervals[i]",
-                                                       "self.lags[i]"]:
-        _fail("RISE: member i must be its own tree on its own interval and lag", st[0])
-    rise_c, ty = _comb(st[1].value, {a[0]: ("rows", "M"), "self.n_estimators": ("qlen rows", "S")})
-    rise_p = _forest_predict(_find(rise, "RandomIntervalSpectralForest.predict"), "RandomIntervalSpectralForest")
-    reg_c = _regressor(reg)
-    col_c = _colens(col)
-    boss_c = _boss_facts(boss, "BOSSEnsemble", "1", "n_estimators",
-                         "self.n_estimators = len(self.classifiers)", "BOSSEnsemble")
-    cboss_c = _boss_facts(cboss, "ContractableBOSS", "self.weights[n]", "weight_sum",
-                          "self.weight_sum = np.sum(self.weights)", "ContractableBOSS")
-    iboss_c = _iboss(boss)
+    ctx = Ctx(rise, "RandomIntervalSpectralForest", primitives=prim - {"_predict_proba_for_estimator"}, hook=_hook)
+    rise_c, ty = _forest(ctx, "clf", "RandomIntervalSpectralForest", lambda i: (
+        "call", ("attr", est(i), "predict_proba"),
+        (("call", ("global", "_transform"), (X, ("sub", sattr("intervals"), i), ("sub", sattr("lags"), i)), ()),), ()))
+    rise_p = _decode(ctx, "RandomIntervalSpectralForest")
+    # forest regressor
+    ctx = Ctx(reg, "TimeSeriesForestRegressor", primitives=prim, hook=_hook, bases=fb)
+    reg_c, ty = _forest(ctx, "reg", "TimeSeriesForestRegressor", lambda i: (
+        "call", ("attr", est(i), "predict"),
+        (("call", ("global", "_transform"), (X, ("sub", sattr("intervals_"), i)), ()),), ()))
+    reg_c = (reg_c.replace("(mean_rows k rows)", "(qmean preds)").replace("(vsum k rows)", "(qsum preds)")
+             .replace("qlen rows", "qlen preds"))
+    m = __import__("re").fullmatch(r"\(map \(fun s => s / (.*)\) \(qsum preds\)\)", reg_c)
+    if m:
+        reg_c = "(qsum preds / %s)" % m.group(1)        # one instance: a row of width 1
+    if "rows" in reg_c or "map" in reg_c:
+        _fail("forest regressor: combination %s" % reg_c)
+    col_c = _colens(Ctx(col, "BaseColumnEnsembleClassifier", primitives=prim | {"_get_column"}, hook=_hook), col)
+    boss_c = _votes(Ctx(boss, "BOSSEnsemble", primitives=prim, hook=_hook), "BOSSEnsemble", False)
+    _class_dictionary_facts(boss, "BOSSEnsemble", "BOSSEnsemble", {"n_estimators": "len(self.classifiers)"})
+    cboss_c = _votes(Ctx(cboss, "ContractableBOSS", primitives=prim, hook=_hook), "ContractableBOSS", True)
+    _class_dictionary_facts(cboss, "ContractableBOSS", "ContractableBOSS", {"weight_sum": "np.sum(self.weights)"})
+    iboss_c = _iboss(Ctx(boss, "IndividualBOSS", primitives=prim, hook=_hook))
+    _class_dictionary_facts(boss, "IndividualBOSS", "IndividualBOSS", {})
     cboss_w = _cboss_weight(cboss)
-    _base(base)
-    feat = _transform_facts(fbase)
-    ivs = _get_intervals_facts(fbase)
+    _base(Ctx(base, "BaseClassifier", primitives=prim, hook=_hook))
+    fctx = Ctx(fbase, None, primitives={"_slope"}, hook=_hook)
+    feat = _transform_facts(fctx)
+    ivs = _get_intervals_facts(fctx)
     out = ["(* GENERATED by /verif/translator/combine_c17.py from the classifiers' predict_proba /",
            "   predict / score functions -- do not edit, never committed *)",
            "From Coq Require Import QArith List Bool ZArith.",
